@@ -423,6 +423,33 @@ pub fn run(ctx: &Ctx, rep: &Report) {
             }
         }
     }
+    // structured corruptions: a whole 24-bit window of a valid frame (byte aligned: the address, the parity field, ...)
+    // replaced by zeros, by ones, by its complement, by the frame's address or by its parity field - what a relay that
+    // "normalises" frames, or a truncating copy, produces. Each is a burst of at most 24 bits.
+    {
+        let mut total = 0u64;
+        for b in base_frames() {
+            let aa = get_bits(&b, 8, 24);
+            let pi = get_bits(&b, 88, 24);
+            for off in (0..=88).step_by(8) {
+                let cur = get_bits(&b, off, 24);
+                for v in [0u64, 0xff_ffff, cur ^ 0xff_ffff, aa, pi, cur & 0xff_ff00, cur & 0x00_ffff] {
+                    if v == cur {
+                        continue;
+                    }
+                    let mut f = b.clone();
+                    set_bits(&mut f, off, 24, v);
+                    total += 1;
+                    if let Some((c, w)) = check_accept(&f) {
+                        rep.violation(&c, format!("{w} (a 24-bit window at bit {off} of a valid frame replaced by {v:06x})"), json!({"kind":"accept","frame":hexs(&f)}));
+                    }
+                }
+            }
+        }
+        rep.eval(total);
+        rep.nontriv(total);
+        rep.part("accept:structured 24-bit window replacements of every base frame", total, json!({}));
+    }
     // (f) AP address recovery
     {
         let dfs = [0u8, 4, 5, 16, 20, 21];
